@@ -2,4 +2,5 @@
 EXTENDS Couplings
 MCMs == <<2, 4, 9>>
 MCRef == <<3, 4>>
+MCRefWall == <<2, 4>>    \* reference exactly on the first matching scale
 =============================================================================
